@@ -39,7 +39,7 @@ Step ==
   /\ l <= Len(TraceLog)
   /\ LET ln == TraceLog[l] IN
      CASE ln.t = "op" ->
-            /\ IF Applicable(ln) /\ st[ln.c].p = (ln.op \notin {"ctor_def", "ctor_n", "ctor_nv", "ctor_rng", "ctor_il", "ctor_copy", "ctor_move"})
+            /\ IF Applicable(ln) /\ st[ln.c].p = (ln.op \notin {"ctor_def", "ctor_n", "ctor_nv", "ctor_gen", "ctor_rng", "ctor_il", "ctor_copy", "ctor_move"})
                   /\ (ln.s = "-" \/ st[ln.s].p)
                THEN LET fa == FirstAlloc(ln.evs)
                         ln2 == IF fa > 0 THEN [ln EXCEPT !.id = ln.id] @@ [newid |-> fa] ELSE ln
